@@ -2,7 +2,7 @@ import Secp.Proofs.SswuRef
 import Secp.Proofs.SqrtRatio
 import Secp.Proofs.Isogeny
 import Secp.Proofs.SpecBridge
-import Secp.Proofs.Bits64
+import Secp.Proofs.Bits64P
 import Mathlib.Tactic.FieldSimp
 /-!
 # The generated straight-line `SSWU` computes the simplified SWU map of RFC 9380 §6.6.2 on every field element
